@@ -71,7 +71,7 @@ def C12_cfg_statement : Prop :=
     zero; the productions now end in `numerical_phrase` and the hypothesis is gone.) -/
 theorem C12_cfg : C12_cfg_statement :=
   ⟨fun _ h c hw => cell_der h c hw,
-   fun _ h e hw pad hp => (geom_der h e hw).2.2.2 pad hp,
+   fun _ h e hw pad hp => (geom_der h e hw).2.2.2.2 pad hp,
    fun _ h es hne hw => entries_der h es hne hw,
    fun _ h s hw => surface_der h s hw,
    fun _ h d hw hp => data_der h d hw hp,
@@ -239,27 +239,27 @@ example : routeCellKeyword (lower "NONU") = [] ∧ routeCellKeyword (lower "UNC"
     routeCellKeyword (lower "U") = ["UniverseInput"] := by decide
 
 /-- the in-place part of `_parse_keyword_modifiers` on a concrete cell: `u=2 nonu=1 imp:n=1 imp:p=0 tmp1=3` -/
-example : parseKeywordModifiers [⟨"u", ""⟩, ⟨"nonu", ""⟩, ⟨"imp", ":n"⟩, ⟨"imp", ":p"⟩, ⟨"tmp", ""⟩] =
+example : parseKeywordModifiers [⟨"u", "", ""⟩, ⟨"nonu", "", ""⟩, ⟨"imp", ":n", ""⟩, ⟨"imp", ":p", ""⟩, ⟨"tmp", "", "1"⟩] =
     some { set := ["_universe", "_importance"], merged := ["_importance"], dropped := [], found := ["u", "imp"],
-           keys := ["u", "nonu", "imp:n", "imp:p", "tmp", "vol", "lat", "fill"] } := by decide
+           keys := ["u", "nonu", "imp:n", "imp:p", "tmp1", "vol", "lat", "fill"] } := by decide
 
-/-! ### ParametersNode.append drops the classifier's number from the key -/
+/-! ### ParametersNode.append keeps the classifier's number in the key -/
 
-/-- the full statement: two parameters of G that differ in keyword, index or particles never collide -/
-def C12_param_keys_statement : Prop :=
-  ∀ (a b : Param) (na nb : Option Nat), (a, na) ≠ (b, nb) → a.key ≠ b.key
+/-- two parameters of G with the same keyword and particles but different indices (`TMP1` / `TMP2`,
+    `WWN1:n` / `WWN2:n`) never collide.  (Refuted until MontePy 280a407: the number was not part of the key.) -/
+theorem C12_param_keys : ∀ (a b : Param), a.pfx = b.pfx → a.particles = b.particles → a.number ≠ b.number →
+    a.keyChars ≠ b.keyChars := by
+  intro a b hp hq hn h
+  unfold Param.keyChars at h
+  rw [hp, hq] at h
+  have h1 := List.append_cancel_right h
+  have h2 := List.append_cancel_left h1
+  exact hn (String.toList_inj.mp h2)
 
-/-- refuted by the code as it stands: `TMP1=… TMP2=…` (two time indices) get the same key `tmp`, and the second
-    raises RedundantParameterSpecification (known finding C12-F-paramidx) -/
-theorem C12_param_keys_refuted : ¬ C12_param_keys_statement := by
-  intro h
-  exact h ⟨"tmp", ""⟩ ⟨"tmp", ""⟩ (some 1) (some 2) (by decide) rfl
-
-/-- partial: parameters whose (keyword, particles) differ as lower-case text never collide -/
-theorem C12_param_keys_partial : ∀ (a b : Param), lower (a.pfx ++ a.particles) ≠ lower (b.pfx ++ b.particles) →
-    a.key ≠ b.key := fun _ _ h => h
-
-example : (Param.mk "imp" ":n").key ≠ (Param.mk "imp" ":p").key := by decide
+example : (Param.mk "tmp" "" "1").key = "tmp1" ∧ (Param.mk "WWN" ":N" "2").key = "wwn2:n" := by decide
+example : parseKeywordModifiers [⟨"tmp", "", "1"⟩, ⟨"tmp", "", "2"⟩] ≠ none := by decide
+/-- the same parameter twice is still refused -/
+example : parseKeywordModifiers [⟨"tmp", "", "1"⟩, ⟨"tmp", "", "1"⟩] = none := by decide
 
 /-! ## C12_arity -/
 
@@ -304,9 +304,10 @@ example : surfaceAccepts "px" 2 = false ∧ surfaceAccepts "p" 9 = true ∧ surf
 
 /-! ## C12_lexclass -/
 
-/-- keywords in any letter case become KEYWORD tokens in cell and data cards; mnemonics become SURFACE_TYPE -/
+/-- outside a particle position, keywords in any letter case become KEYWORD tokens in cell and data cards;
+    mnemonics become SURFACE_TYPE -/
 def C12_lexclass_statement : Prop :=
-  (∀ w : String, lower w ∈ pinnedKeywords → particleLexerText w = "KEYWORD") ∧
+  (∀ w : String, lower w ∈ pinnedKeywords → particleLexerText false w = "KEYWORD") ∧
   (∀ w : String, lower w ∈ pinnedSurfaceTypes → surfaceLexerText w = "SURFACE_TYPE")
 
 theorem C12_lexclass : C12_lexclass_statement := by
@@ -322,23 +323,46 @@ theorem C12_lexclass : C12_lexclass_statement := by
 
 example : lower "NoNu" ∈ pinnedKeywords ∧ lower "C/X" ∈ pinnedSurfaceTypes := by decide
 
-/-- the full statement for particles: every letter designator of table 2-2 becomes a PARTICLE token -/
+/-- the full statement for particles: where only a particle can stand, every letter designator of table 2-2,
+    in any letter case, becomes a PARTICLE token — also `u`, `x`, `y`, `z`, which are keywords too.
+    (Refuted by `u` until MontePy 22ba69f: the keyword test came first everywhere.) -/
 def C12_lexclass_particles_statement : Prop :=
-  ∀ w : String, lower w ∈ pinnedParticles → particleLexerText w = "PARTICLE"
+  ∀ w : String, lower w ∈ pinnedParticles → particleLexerText true w = "PARTICLE"
 
-/-- refuted by the code as it stands: `u` (and `x`, `y`, `z`) are keywords too and the keyword test comes first,
-    so `imp:u=1` / `mode n x` are lexed KEYWORD … and no production takes a keyword there (finding C12-F-kwparticle) -/
-theorem C12_lexclass_particles_refuted : ¬ C12_lexclass_particles_statement := by
-  intro h
-  have := h "u" (by decide)
-  revert this
-  decide
+theorem C12_lexclass_particles : C12_lexclass_particles_statement := by
+  intro w h
+  have hsub : pinnedParticles ⊆ Tokens.particleLexerParticles := by decide
+  have hp : lower w ∈ Tokens.particleLexerParticles := hsub h
+  simp [particleLexerText, hp]
 
-/-- the excluded class: a particle letter that is also a lexer keyword -/
+/-- the positions G puts a particle in are recognised: after `:` and `,`, on a MODE card in any letter case,
+    after `par` / `par=` (but not after a longer word that merely ends in par) -/
+theorem C12_expects_particle :
+    (∀ f k, expectsParticle (some ':') f k = true) ∧ (∀ f k, expectsParticle (some ',') f k = true) ∧
+    (∀ p k, expectsParticle p (some "mode") k = true) ∧ (∀ p k, expectsParticle p (some "MODE") k = true) ∧
+    (∀ p k, expectsParticle p (some "Mode") k = true) ∧
+    expectsParticle (some '=') (some "sdef") "sdef erg=1 par" = true ∧
+    expectsParticle (some ' ') (some "sdef") "sdef par" = true ∧
+    expectsParticle (some '=') (some "sdef") "sdef spar" = false ∧
+    expectsParticle (some ' ') (some "u") "u" = false ∧ expectsParticle none none "" = false := by
+  refine ⟨fun f k => by simp [expectsParticle], fun f k => by simp [expectsParticle], ?_, ?_, ?_,
+    by decide, by decide, by decide, by decide, by decide⟩
+  · intro p k
+    have : (lower "mode" == "mode") = true := by decide
+    simp [expectsParticle, this]
+  · intro p k
+    have : (lower "MODE" == "mode") = true := by decide
+    simp [expectsParticle, this]
+  · intro p k
+    have : (lower "Mode" == "mode") = true := by decide
+    simp [expectsParticle, this]
+
+/-- elsewhere the keyword test still comes first (`u=1`, `x=d1` are keywords), and a particle letter that is no
+    keyword is a PARTICLE anyway -/
 def isKeywordLetter (w : String) : Bool := Tokens.particleLexerKeywords.contains (lower w)
 
-theorem C12_lexclass_particles_partial :
-    ∀ w : String, lower w ∈ pinnedParticles → isKeywordLetter w = false → particleLexerText w = "PARTICLE" := by
+theorem C12_lexclass_particles_elsewhere :
+    ∀ w : String, lower w ∈ pinnedParticles → isKeywordLetter w = false → particleLexerText false w = "PARTICLE" := by
   intro w h hk
   have hsub : pinnedParticles ⊆ Tokens.particleLexerParticles := by decide
   have hp : lower w ∈ Tokens.particleLexerParticles := hsub h
@@ -347,8 +371,7 @@ theorem C12_lexclass_particles_partial :
     simp [isKeywordLetter, hmem] at hk
   simp [particleLexerText, hk', hp]
 
-/-- non-vacuity, and the exact extent of the excluded class among G's particles -/
 example : pinnedParticles.filter isKeywordLetter = ["u", "x", "y", "z"] := by decide
-example : lower "N" ∈ pinnedParticles ∧ isKeywordLetter "N" = false := by decide
+example : particleLexerText false "u" = "KEYWORD" ∧ particleLexerText true "U" = "PARTICLE" := by decide
 
 end MontePyVerif.C12
